@@ -412,6 +412,21 @@ func CheckC04(p *Pkg, e *Env, r *res.Result) {
 			target += "?" + enc
 		}
 		req := httptest.NewRequest(oi.op.Method, target, nil)
+		// a body-carrying request may also bring a form-encoded body whose fields are named
+		// like the query parameters: query parameters come from the query string only
+		if m := oi.op.Method; (m == "POST" || m == "PUT" || m == "PATCH") && rapid.IntRange(0, 2).Draw(t, "decoy_form_body") == 0 {
+			form := url.Values{}
+			for i, d := range oi.decls {
+				if d.In == "query" {
+					form.Add(d.Name, rapid.SampledFrom([]string{"1", "true", "x", "", "2021-03-04T05:06:07Z", "not-a-value"}).Draw(t, fmt.Sprintf("decoy%d", i)))
+				}
+			}
+			if len(form) > 0 {
+				req = httptest.NewRequest(oi.op.Method, target, strings.NewReader(form.Encode()))
+				req.Header.Set("Content-Type", "application/x-www-form-urlencoded")
+				r.Label("request:decoy-form-body")
+			}
+		}
 		for k, vs := range h {
 			for _, v := range vs {
 				req.Header.Add(k, v)
